@@ -69,6 +69,11 @@ def gen_stream(run: core.Run, n: int, stats: Counter):
             continue
         m, meta = r[1], r[2]
         strip_unk(m)
+        try:
+            annotated(m)  # the declared output types must be consistent with strict shape inference
+        except Exception:
+            stats["gen_refused"] += 1
+            continue
         meta["opset"] = m.opset_import[0].version
         out.append((m, meta))
     if stats["gen_refused"] > 0.3 * n:
